@@ -5,7 +5,7 @@
 (* taken on an accepted path in the variable kf.                                          *)
 EXTENDS Lru, TLC
 
-KnownIds == {"C17-KF1", "C17-KF2", "C17-KF5"}     \* C17-KF4 is a note of Trace_Lru (accepted refusal), not a deviation
+KnownIds == {"C17-KF1", "C17-KF2"}     \* C17-KF4 is a note of Trace_Lru (accepted refusal), not a deviation
 
 (* ---- observation of the shard an operation went to (ConcurrentLruMap) ----            *)
 (* The harness logs, before and after every call, shard_sizes() and the per-shard        *)
